@@ -220,6 +220,8 @@ type CmdDecl struct {
 	After      CB
 	Action     CB
 	Subs       []*CmdDecl
+	MidEnv     *EnvState           // when set: the environment the host program installs just before declaration number MidAt
+	MidAt      int                 // (each declaration reads the environment at its own moment)
 	PolicyLate *flag.ErrorHandling // assigned to the command after it declared its sub-commands (they do not inherit it)
 	Policy     *flag.ErrorHandling // set by the command's own initializer (inherited by the sub-commands it declares afterwards)
 
@@ -667,7 +669,10 @@ func (inst *Instance) configure(c *cli.Cmd, d *CmdDecl) {
 	c.Spec = d.Spec
 	c.LongDesc = d.LongDesc
 	c.Hidden = d.Hidden
-	for _, decl := range d.Decls {
+	for i, decl := range d.Decls {
+		if d.MidEnv != nil && i == d.MidAt {
+			d.MidEnv.Apply()
+		}
 		inst.declare(c, d, decl)
 	}
 	c.Before = inst.callback(c, "B:"+d.Tag, d.Before, false, d.Tag)
